@@ -40,14 +40,22 @@ func c03Datasets() map[string][]string {
 			ev(1, 1000, `"v":2,"f":-2.25,"g":"B","m":"foo"`),
 			ev(2, 1500, `"v":3,"f":100.5,"g":"A","m":"BAR baz"`),
 			ev(3, 2000, `"v":4,"f":0.125,"g":"B","m":"qux"`),
-			ev(4, 61000, `"v":5,"f":7,"g":"A","m":"foo qux"`),
+			ev(4, 61000, `"v":5,"f":7.5,"g":"A","m":"foo qux"`), // (an integer-valued f would make this block's column integer-typed: C02's int-vs-decimal class)
 		},
 		"dups": {
 			ev(0, 0, `"v":2,"f":2.5,"g":"A","m":"foo"`),
 			ev(1, 0, `"v":2,"f":2.5,"g":"A","m":"foo"`),
-			ev(2, 1, `"v":7,"f":-1,"g":"A","m":"bar"`),
-			ev(3, 1, `"v":2,"f":3,"g":"B","m":"Foo Bar"`),
-			ev(4, 2, `"v":9,"f":4,"g":"B","m":"bar"`),
+			ev(2, 1, `"v":7,"f":-1.5,"g":"A","m":"bar"`),
+			ev(3, 1, `"v":2,"f":3.5,"g":"B","m":"Foo Bar"`),
+			ev(4, 2, `"v":9,"f":4.5,"g":"B","m":"bar"`),
+		},
+		// spellings that differ only in case (equality is case-insensitive, dictionary words are not)
+		"case": {
+			ev(0, 0, `"v":1,"f":1.5,"g":"a","m":"Error"`),
+			ev(1, 1, `"v":2,"f":2.5,"g":"A","m":"error"`),
+			ev(2, 2, `"v":3,"f":3.5,"g":"b","m":"ERROR"`),
+			ev(3, 3, `"v":4,"f":4.5,"g":"a","m":"warn"`),
+			ev(4, 4, `"v":5,"f":5.5,"g":"B","m":"error x"`),
 		},
 	}
 }
@@ -64,6 +72,19 @@ var c03Queries = []c03Query{
 	{"* | stats count by m", false, "stats-by"},
 	{"* | sort v, f, id | fields id, v, f", true, "sort"}, {"* | sort -f, v | head 2", true, "sort"}, {"* | eval w=v*2 | where w>4 | fields id, w", false, "eval-where"},
 	{"* | dedup g | fields g", false, "dedup"}, {"* | top 1 g", false, "top"},
+	{"g=a", false, "filter-str"}, {"g=B", false, "filter-str"}, {"m=error", false, "filter-str"}, {"m=ERROR", false, "filter-str"}, {"m!=error", false, "filter-str"},
+}
+
+// every comparison operator at every value that occurs (block minima and maxima are among them in the multi-block layouts)
+func init() {
+	for _, op := range []string{">=", "<=", ">", "<", "=", "!="} {
+		for _, x := range []string{"1", "2", "3", "4", "5", "7", "9"} {
+			c03Queries = append(c03Queries, c03Query{"v" + op + x, false, "filter-num-boundary"})
+		}
+		for _, x := range []string{"-2.25", "-1.5", "0.125", "1.5", "2.5", "3.5", "7.5", "100.5"} {
+			c03Queries = append(c03Queries, c03Query{"f" + op + x, false, "filter-float-boundary"})
+		}
+	}
 }
 
 func normNum(o interface{}) string {
@@ -316,7 +337,7 @@ func pqsPool() *kernel.Pool {
 func C03() int {
 	rep := kernel.NewReport("C03", "exploration")
 	rep.Rule = "for each dataset × configuration k = (layout, dictionary limit, PQS off/on with every query registered after the first block, GOMAXPROCS) " +
-		"the dataset is loaded in the baseline configuration and in k inside one worker and all 27 queries (filters, boolean forms, free text, stats with and " +
+		"the dataset is loaded in the baseline configuration and in k inside one worker and all 116 queries (filters incl. every comparison operator at every occurring value and case-variant equality, boolean forms, free text, stats with and " +
 		"without group-by, timechart, sort, eval/where, dedup, top) must give identical normalised answers. non-trivial = (dataset, query, k) with a non-empty equal answer; " +
 		"configs_with_<accelerator> counts configurations in which that accelerator's files actually existed"
 	rep.Assume = []string{"datasets hold single-kind dense columns only (mixed/sparse columns are covered, with their known findings, by C02/C04)",
@@ -330,7 +351,7 @@ func C03() int {
 			} else {
 				lays = append(StdLayouts(5), Layout{"r-r-r-r-r", []int{2, 2, 2, 2, 2}}, Layout{"f-r-f-r-f", []int{1, 2, 1, 2, 1}}, Layout{"0-2-0-0-2", []int{0, 2, 0, 0, 2}})
 			}
-			names := []string{"plain", "dups"}
+			names := []string{"plain", "dups", "case"}
 			for _, ds := range names {
 				for _, l := range lays {
 					for _, c := range []int{2, 501} {
